@@ -58,8 +58,8 @@ CLAIMS = {
             TECH_K + " (bounded + complete guards)", "§3 C07"),
     "C08": ("model_checking",
             "Greedy: add step contract from an arbitrary state (complete, hence all histories), add_all batches <= 3 (found defect F1, fixed); Elitism: one add/add_all step from an arbitrary sorted bounded state keeps the best, "
-            "stays sorted/bounded/duplicate-free, invents nothing, reports improvement correctly; selection only yields members (bounded: population <= 5, constant lengths enumerated).",
-            "Kani on the real rosomaxa crate in a scratch overlay (no substitutions); Rosomaxa population (GSOM) only through Elitism being its elite/node storage; objective assumed a total preorder.",
+            "stays sorted/bounded/duplicate-free, invents nothing, reports improvement correctly; selection only yields members (bounded: population <= 5, constant lengths enumerated); Rosomaxa::add_all offers every individual of a batch that is not worse than the best known to the elite, hands the whole batch to the phase storage and returns the elite's verdict (bounded: batch of 3, U08d).",
+            "Kani on the real rosomaxa crate in a scratch overlay (no substitutions); Rosomaxa::add_all/add verbatim against the elite's contract in a stub environment (U08d); GSOM network storage, phase switches and selection are NOT under contract; objective assumed a total preorder.",
             TECH_K + " on a whole-crate overlay", "§3 C08"),
     "C09": ("model_checking",
             "InsertionCost: cmp == lexicographic total_cmp over zero-padded vectors, antisymmetric/reflexive, eq/partial_cmp/operators agree, add/sub element-wise with missing = 0, inverse on the exact domain "
@@ -68,13 +68,13 @@ CLAIMS = {
             TECH_K + " (bounded lengths)", "§3 C09"),
     "C10": ("model_checking",
             "The shared time-window rule check_time_windows == documented rule E1103 for <= 3 (thorough: 4) windows (found defect F2, fixed); TimeWindow::intersects == inclusive overlap. "
-            "Job rules E1101/E1103/E1105/E1106/E1107: Err(code) iff the documented predicate is broken, over all four task kinds (one job, <= 2 tasks; found defect F3, fixed). The other rule functions and the reader are not under contract.",
-            "Bounded Kani harnesses; RFC3339 parsing, ids, JSON reader, 37 other rule functions are NOT under contract (string code).",
+            "Job rules E1101/E1103/E1105/E1106/E1107: Err(code) iff the documented predicate is broken, over all four task kinds (one job, <= 2 tasks; found defect F3, fixed). Vehicle rules E1304 (reload windows may intersect each other, must touch the shift), E1306, E1307: Err(code) iff the documented predicate is broken, against check_time_windows' contract (bounded, U10c). The other rule functions and the reader are not under contract.",
+            "Bounded Kani harnesses; RFC3339 parsing, ids, JSON reader, 34 other rule functions are NOT under contract (string code).",
             TECH_K + " (bounded)", "§3 C10"),
     "C14": ("proof",
             "Tour: representation invariant (depot ends in place, interior activities carry jobs, job set == jobs of activities) preserved by every mutator with whole-view postconditions, getters equal their spec - "
-            "Verus, unbounded, hence all operation histories; legs() enumeration incl. the open-end leg and the bare-start case, index/index_last/job_activities, deep_copy independence (Kani, bounded <= 3 job activities).",
-            "Trusted: Verus/Z3 + Kani; Job identity model; Vec::retain contract; the vehicle registry clause is NOT decided (unit U14c does not finish in CBMC and is disabled).",
+            "Verus, unbounded, hence all operation histories; legs() enumeration incl. the open-end leg and the bare-start case, index/index_last/job_activities, deep_copy independence (Kani, bounded <= 3 job activities); vehicle registry (registry.rs verbatim): from ANY state of 3 vehicles in 2 type groups one acquire/release matches the reference model (a vehicle is handed out exactly when free, never twice), available/next/all enumerate exactly the free / one free per group / all vehicles, deep copies are independent, a slice knows only the kept vehicles, Registry::new offers everything (Kani, bounded, U14c).",
+            "Trusted: Verus/Z3 + Kani; Job identity model; Vec::retain contract; registry unit: std hash collections, Arc<Actor> and the lazy FlatMap adapter replaced by stated stand-ins (env/collections_fixed.rs, leaked reference, env/eager.rs); callers keeping registry and tours in step are glue.",
             TECH_V, "§3 C14"),
     "C15": ("proof",
             "First sentence: the reducer (choose_best_result, BestResultSelector::select_insertion, select_cost) returns one of its arguments with the minimal cost (Verus); lemma L15: every fold/reduce tree over any "
